@@ -154,6 +154,7 @@ type encMid struct {
 	M     map[string]string
 	MB    map[string][]byte
 	Inner map[string]*encLeaf
+	MLP   map[string][]*encLeaf
 }
 
 // encIgnored is a type that scenarios may list in Filter.IgnoreTypes.
@@ -554,6 +555,10 @@ func (g *encGen) outer(where string, depth int) *encOuter {
 			l := g.leaf(where + ".LP[]")
 			o.LP = append(o.LP, &l)
 		}
+		if g.d.next(4) == 0 {
+			// a slice of pointers may hold nil pointers: nothing to filter there, everything else is filtered
+			o.LP = append(o.LP[:1:1], append([]*encLeaf{nil}, o.LP[1:]...)...)
+		}
 	}
 	if g.want() {
 		o.M = map[string]string{"k1": g.canary("redact", where+".M{}"), "k2": g.canary("redact", where+".M{}")}
@@ -637,6 +642,10 @@ func (g *encGen) mid(where string) *encMid {
 	}
 	if g.want() {
 		m.MB = map[string][]byte{"k": []byte(g.canary("redact", where+".MB{}"))}
+	}
+	if g.want() {
+		l := g.leaf(where + ".MLP{}[]")
+		m.MLP = map[string][]*encLeaf{"k": {nil, &l, nil}} // pointer slices in maps may hold nil pointers too
 	}
 	if g.want() {
 		l := g.leaf(where + ".Inner{}")
@@ -1024,6 +1033,10 @@ func (g *encGen) payload(kind int, depth int) (interface{}, string) {
 	case 10:
 		return g.tagStruct("tagstruct"), "*taggable-struct"
 	case 11:
+		if g.d.next(3) == 0 {
+			// (a nil element before and after the one that holds the data)
+			return []*encOuter{nil, g.outer("[]*outer", 0), nil}, "[]*struct(outer)"
+		}
 		return []*encOuter{g.outer("[]*outer", 0)}, "[]*struct(outer)"
 	case 13:
 		return wrapperspb.String(g.canary("redact", "*wrapperspb.Value")), "*wrapperspb.StringValue"
@@ -1197,6 +1210,14 @@ type encCheck struct {
 	verify func(treat string, plain []byte, out string) string // "" ok, else problem
 	leaks  int
 	shape  []string
+	dumps  *[2]string // renderings of input and output for messages, made once per comparison
+}
+
+func (c *encCheck) dumped() *[2]string {
+	if c.dumps == nil {
+		c.dumps = &[2]string{truncate(dumpJSON(c.input), 6000), truncate(dumpJSON(c.output), 6000)}
+	}
+	return c.dumps
 }
 
 func isWrapperPB(t reflect.Type) bool {
@@ -1242,7 +1263,7 @@ func (c *encCheck) leafCheck(in, out []byte, path string) {
 					return // a plain leak is C09's finding
 				}
 			}
-			c.rc.Failf(rule, class, "value at %s (expected %s): %s; got %q\ninput payload: %s\noutput payload: %s", path, e.treat, p, truncate(string(out), 80), truncate(dumpJSON(c.input), 6000), truncate(dumpJSON(c.output), 6000))
+			c.rc.Failf(rule, class, "value at %s (expected %s): %s; got %q\ninput payload: %s\noutput payload: %s", path, e.treat, p, truncate(string(out), 80), c.dumped()[0], c.dumped()[1])
 		}
 		c.leaks++
 	}
